@@ -99,40 +99,166 @@ def parseCfg (j : Json) : Cfg :=
 def parseFiles (j : Json) (k : String) : List (String × Contrib) :=
   (jarr j k).toList.map fun f => (jstr f "n", parseContrib (jget f "c"))
 
+/-! Parsing the implementation's view -/
+
+def parseKN (j : Json) (k : String) : AList Nat := (jarr j k).toList.map pairKN
+def parseKL (j : Json) (k : String) : AList (List String) :=
+  (jarr j k).toList.map fun e => match arrOf e with
+    | [a, b] => (strOf a, (arrOf b).map strOf)
+    | _ => ("", [])
+def parseStrs (j : Json) (k : String) : List String := (jarr j k).toList.map strOf
+def parseOptStrs (j : Json) (k : String) : Option (List String) :=
+  if jhas j k then some (parseStrs j k) else none
+
+def parseView (j : Json) : View :=
+  { members := parseStrs j "members"
+    idx := {
+      ac := parseKN j "ac", pc := parseKN j "pc", cc := parseKN j "cc", tc := parseKN j "tc"
+      tvc := (jarr j "tvc").toList.map fun e => match arrOf e with
+        | [k, vs] => (strOf k, (arrOf vs).map pairKN)
+        | _ => ("", [])
+      txs := (jarr j "tx").toList.map fun e => match arrOf e with
+        | [k, es] => (strOf k, (arrOf es).map fun x =>
+            let fd := pairSS x
+            { key := strOf k, file := fd.1, data := fd.2 })
+        | _ => ("", [])
+      pts := (jarr j "pt").toList.map pairSS
+      accounts := { all := parseStrs j "accounts", byPrefix := parseKL j "byPrefix" }
+      payees := parseStrs j "payees", commodities := parseStrs j "commodities"
+      tags := parseStrs j "tags", tagValues := parseKL j "tagValues", dates := parseStrs j "dates" }
+    formats := if jhas j "formats" then some ((jarr j "formats").toList.map pairSS) else none
+    comms := parseOptStrs j "declC"
+    accts := parseOptStrs j "declA" }
+
+/-! Running the model on a case -/
+
+structure StepOut where
+  mid : View
+  midOrder : List String
+  post : View
+  postOrder : List String
+  fs : FS
+
+structure Sim where
+  root : String
+  init : View
+  order0 : List String
+  steps : List StepOut
+
+def simulate (cfg : Cfg) (fs0 : FS) (ups : List (String × Contrib × List String × List String)) : Sim :=
+  let w0 := init cfg [] fs0
+  let (v0, w) := observe w0
+  let rec go (fs : FS) (w : WS) : List (String × Contrib × List String × List String) → List StepOut
+    | [] => []
+    | (n, c, σ1, σ2) :: rest =>
+      let w1 := updateFile cfg σ1 fs w n c
+      let (mid, w1') := observe w1
+      let fs' := fs.set n c
+      let w2 := updateFile cfg σ2 fs' w1' n c
+      let (post, w2') := observe w2
+      { mid := mid, midOrder := w1.order, post := post, postOrder := w2.order, fs := fs' } :: go fs' w2' rest
+  { root := w0.root, init := v0, order0 := w0.order, steps := go fs0 w ups }
+
+def outView (v : View) (implView : Json) : Json := viewJson v (reconcilePts v.idx (implPts implView))
+
+/-! Domain of the property -/
+
+def posCounts (l : AList Nat) : Bool := l.all fun e => e.2 > 0
+
+def contribOk (c : Contrib) : Bool :=
+  posCounts c.ac && posCounts c.pc && posCounts c.cc && posCounts c.tc &&
+  c.tvc.all (fun e => !e.2.isEmpty && posCounts e.2) && decide (c.pts.keys = dedup c.pts.keys)
+
+def fsOk (fs : FS) : Bool :=
+  decide (fs.keys = dedup fs.keys) && fs.all fun e => e.1 ≠ "" && contribOk e.2
+
+open HL.Spec.Rebuild in
 def run (j : Json) : Json := Id.run do
   let cfg := parseCfg j
   let files := parseFiles j "files"
   let ups := parseFiles j "ups"
   let impl := jget j "impl"
+  let implSteps := (jarr impl "steps").toList
   let fs0 : FS := files
-  let mut fs := fs0
-  let w0 := init cfg [] fs0
-  let (v0, w0') := viewOut w0 (jget impl "init")
-  let mut w := w0'
+  let upσ := (ups.zip (implSteps ++ List.replicate ups.length Json.null)).map fun ((n, c), is) =>
+    (n, c, (jarr is "midOrder").toList.map strOf, (jarr is "postOrder").toList.map strOf)
+  let sim := simulate cfg fs0 upσ
   let freshOf := fun (fs : FS) (iv : Json) =>
     let wf := init cfg [] fs
-    let (vj, _) := viewOut wf iv
-    vj.setObjVal! "root" (Json.str wf.root)
-  let mut steps : Array Json := #[]
-  let implSteps := jarr impl "steps"
+    (outView (observe wf).1 iv).setObjVal! "root" (Json.str wf.root)
+  -- the model's output
+  let stepsJ := (sim.steps.zip implSteps).map fun (s, is) =>
+    Json.mkObj [("mid", outView s.mid (jget is "mid")), ("midOrder", jstrs s.midOrder),
+      ("post", outView s.post (jget is "post")), ("postOrder", jstrs s.postOrder),
+      ("fresh", freshOf s.fs (jget is "fresh"))]
+  let model := Json.mkObj [("root", Json.str sim.root), ("init", outView sim.init (jget impl "init")),
+    ("order0", jstrs sim.order0), ("fresh0", freshOf fs0 (jget impl "fresh0")),
+    ("steps", Json.arr stepsJ.toArray)]
+  -- domain
+  let domain := fsOk fs0 && fs0.length ≥ 2 && fs0.length ≤ 5 && ups.length ≤ 8 &&
+    ups.all (fun u => u.1 ≠ "" && contribOk u.2)
+  -- the oracle judges the IMPLEMENTATION's views
+  let root := jstr impl "root"
+  let mut why : List String := []
+  let mut known : List String := []
+  let mut unexplained := false
+  let judgeFresh := fun (fs : FS) (iv : Json) (tag : String) =>
+    let r := rebuild cfg.limit fs
+    let f := failures r (parseView iv)
+    let f := if jstr iv "root" == r.root then f else "root" :: f
+    if f.isEmpty then [] else [s!"{tag}: a fresh workspace differs from the specification in {f}"]
+  why := why ++ judgeFresh fs0 (jget impl "fresh0") "initial contents"
+  let f0 := failures (rebuildAt cfg.limit root fs0) (parseView (jget impl "init"))
+  let f0 := if root == rootOf fs0 then f0 else "root" :: f0
+  if !f0.isEmpty then why := why ++ [s!"after Initialize: view differs from the specification in {f0}"]
+  if !why.isEmpty then unexplained := true
+  -- variants of the model with the repairs switched on, to attribute failures
+  let simG := if cfg.fixG then sim else simulate { cfg with fixG := true } fs0 upσ
+  let simGT := simulate { cfg with fixG := true, fixT := true } fs0 upσ
+  let simT := if cfg.fixT then sim else simulate { cfg with fixT := true } fs0 upσ
   let mut i := 0
-  for (n, c) in ups do
-    let is := implSteps[i]?.getD Json.null
-    let σ1 := (jarr is "midOrder").toList.map strOf
-    let σ2 := (jarr is "postOrder").toList.map strOf
-    let w1 := updateFile cfg σ1 fs w n c
-    let (mid, w1') := viewOut w1 (jget is "mid")
-    fs := fs.set n c
-    let w2 := updateFile cfg σ2 fs w1' n c
-    let (post, w2') := viewOut w2 (jget is "post")
-    w := w2'
-    steps := steps.push (Json.mkObj [("mid", mid), ("midOrder", jstrs w1.order),
-      ("post", post), ("postOrder", jstrs w2.order), ("fresh", freshOf fs (jget is "fresh"))])
+  for is in implSteps do
+    match sim.steps[i]? with
+    | none => pure ()
+    | some s =>
+      let fw := judgeFresh s.fs (jget is "fresh") s!"step {i}"
+      if !fw.isEmpty then
+        why := why ++ fw
+        unexplained := true
+      if rootOf s.fs != root then
+        if !known.contains "root-not-reselected" then known := known ++ ["root-not-reselected"]
+        why := why ++ [s!"step {i}: a rebuild selects the root {rootOf s.fs}, the workspace keeps {root}"]
+      else
+        let r := rebuildAt cfg.limit root s.fs
+        let F := failures r (parseView (jget is "post"))
+        if !F.isEmpty then
+          why := why ++ [s!"step {i}: view differs from a rebuild in {F}"]
+          let fOf := fun (sm : Sim) => match sm.steps[i]? with
+            | some x => failures r x.post
+            | none => ["?"]
+          let mut tags : List String := []
+          let mut cur := sim
+          if !cfg.fixG && fOf simG != F then
+            tags := tags ++ ["stale-include-graph"]
+            cur := simG
+          if !cfg.fixT then
+            let withT := if tags.isEmpty then simT else simGT
+            if fOf withT != fOf cur then
+              tags := tags ++ ["template-loss"]
+              cur := withT
+          let residual := fOf cur
+          if residual == ["formats"] && formatConflict s.fs root then
+            tags := tags ++ ["formats-order"]
+          else if !residual.isEmpty then
+            unexplained := true
+          if tags.isEmpty then unexplained := true
+          for t in tags do
+            if !known.contains t then known := known ++ [t]
     i := i + 1
-  let model := Json.mkObj [("root", Json.str w0.root), ("init", v0), ("order0", jstrs w0.order),
-    ("fresh0", freshOf fs0 (jget impl "fresh0")), ("steps", Json.arr steps)]
-  return Json.mkObj [("model", model), ("spec_ok", true), ("in_domain", true),
-    ("known", Json.arr #[]), ("why", "")]
+  let specOk := why.isEmpty
+  return Json.mkObj [("model", model), ("spec_ok", specOk), ("in_domain", domain),
+    ("known", if unexplained then Json.arr #[] else jstrs known),
+    ("why", String.intercalate "; " why)]
 
 def contrib (j : Json) : Json :=
   let n := jstr j "n"
